@@ -743,6 +743,11 @@ func TestVerifC32(t *testing.T) {
 			}
 			if anyRenamed {
 				classes = append(classes, "second-run-differs-after-rename-purge")
+			} else if dupID != 0 {
+				// an assigned id occurring twice is outside the property (it speaks of assigned SETS): the second pass over
+				// the same id deletes what the first restored (modelled: C32_assigned_restored_duplicate_id_refuted), and the
+				// next run revives the tombstoned copy. Tied by the correspondence, not an oracle failure.
+				classes = append(classes, "second-run-differs-with-duplicate-assigned-id")
 			} else if len(failIdx)+len(failTrash) > 0 {
 				// the first run was not fault-free (injected rename failures): e.g. a repository whose restore failed
 				// lost its trashed shards, so the fault-free second run revives its tombstoned copy instead
